@@ -133,7 +133,10 @@ class URI(object):
         return not self.__eq__(other)
 
     def __hash__(self):
-        return hash(self.__getstate__())
+        state = self.__getstate__()
+        if isinstance(self.object, (set, frozenset)):
+            state = (state[0], frozenset(self.object)) + state[2:]   # PYROMETA uris hold a set of tags
+        return hash(state)
 
     def __getstate__(self):
         return self.protocol, self.object, self.sockname, self.host, self.port
